@@ -8,6 +8,7 @@ import (
 	"errors"
 	"fmt"
 	"io"
+	"io/fs"
 	"strings"
 	"time"
 
@@ -271,7 +272,7 @@ var errStop = errors.New("stop")
 
 // stopErrs: the errors a callback may return are arbitrary values, including ones that other code treats as "not
 // really an error"; ForEach hands back the very value it was given. The position decides which one is used.
-var stopErrs = []error{errStop, io.EOF, fmt.Errorf("reading: %w", io.EOF), context.Canceled, io.ErrUnexpectedEOF, errors.New("")}
+var stopErrs = []error{errStop, io.EOF, fmt.Errorf("reading: %w", io.EOF), context.Canceled, io.ErrUnexpectedEOF, errors.New(""), fs.SkipDir, fmt.Errorf("walk: %w", fs.SkipDir), fs.SkipAll}
 
 type checker struct {
 	r *drv.Result
